@@ -53,6 +53,38 @@ REGLEN = z3.Int('REGLEN')
 EMPTY = z3.Empty(Word)
 
 
+reduced = z3.Function('reduced', Op, Op)          # X.reduce() for an operator of unknown class (C01's contract)
+adjw = z3.Function('adjw', Word, Word)            # word of the adjoint
+# sums and block containers: one opaque word per (container kind, operand list); congruence lemmas below
+Sw = z3.Function('SumW', OpArr, z3.IntSort(), Word)
+Sc = z3.Function('SumC', OpArr, z3.IntSort(), z3.RealSort())
+BLKW = {k: z3.Function(k + 'W', OpArr, z3.IntSort(), Word) for k in ('Row', 'Diag', 'Col')}
+BLKS = {k + io: z3.Function(k + io + 'S', OpArr, z3.IntSort(), Struct) for k in ('Row', 'Diag', 'Col') for io in ('in', 'out')}
+
+
+def reduce_axioms():
+    o = z3.Const('o!red', Op)
+    return [z3.ForAll([o], z3.And(denw(reduced(o)) == denw(o), denc(reduced(o)) == denc(o), ins(reduced(o)) == ins(o),
+                                  outs(reduced(o)) == outs(o)), patterns=[reduced(o)])]
+
+
+def lem_container_cong(fw, a, b, n, fc=None):
+    """equal denotations element-wise => equal container denotation (LA: containers are functions of their blocks)"""
+    k = fresh_int('k')
+    hyp = z3.ForAll([k], z3.Implies(z3.And(k >= 0, k < n), z3.And(denw(a[k]) == denw(b[k]), denc(a[k]) == denc(b[k]))))
+    concl = fw(a, n) == fw(b, n)
+    if fc is not None:
+        concl = z3.And(concl, fc(a, n) == fc(b, n))
+    return z3.Implies(hyp, concl)
+
+
+def lem_struct_cong(kind, a, b, n):
+    k = fresh_int('k')
+    hyp = z3.ForAll([k], z3.Implies(z3.And(k >= 0, k < n), z3.And(ins(a[k]) == ins(b[k]), outs(a[k]) == outs(b[k]))))
+    return z3.Implies(hyp, z3.And(BLKS[kind + 'in'](a, n) == BLKS[kind + 'in'](b, n),
+                                  BLKS[kind + 'out'](a, n) == BLKS[kind + 'out'](b, n)))
+
+
 def Red(l, r):
     m = fresh_int('m')
     return z3.Exists([m], z3.And(m >= 0, m < REGLEN, Chk(REG[m], l, r), Apl(REG[m], l, r)))
@@ -88,6 +120,15 @@ def lem_cong(a, lo, hi, b, d):
     return z3.Implies(z3.ForAll([k], z3.Implies(z3.And(k >= lo, k < hi), a[k] == b[z3.simplify(k + d)])),
                       z3.And(Ww(a, lo, hi) == Ww(b, z3.simplify(lo + d), z3.simplify(hi + d)),
                              Wc(a, lo, hi) == Wc(b, z3.simplify(lo + d), z3.simplify(hi + d))))
+
+
+def lem_den_cong(a, b, lo, hi):
+    """element-wise equal denotations => equal products (W is a function of the denotations; induction)"""
+    lo, hi = (z3.simplify(to_z3(x)) for x in (lo, hi))
+    k = fresh_int('k')
+    return z3.Implies(z3.ForAll([k], z3.Implies(z3.And(k >= lo, k < hi),
+                                                z3.And(denw(a[k]) == denw(b[k]), denc(a[k]) == denc(b[k])))),
+                      z3.And(Ww(a, lo, hi) == Ww(b, lo, hi), Wc(a, lo, hi) == Wc(b, lo, hi)))
 
 
 def ax_empty():
@@ -130,7 +171,60 @@ class AlgTheory(Theory):
         self.instantiate_overrides[self.cls_hom.fullname] = self.mk_homothety
         self.module_overrides[('furax._base.rules', 'BINARY_RULE_REGISTRY')] = lambda interp: self.registry()
         self.externals['jax.numpy.array'] = lambda interp, v, **kw: v
+        self.externals['jax.tree.map'] = self.tree_map
+        self.externals['jax.tree.leaves'] = self.tree_leaves
+        self.externals['jax.tree.all'] = self.tree_all
         self.equals_handlers.append(self.struct_eq)
+
+    # ---- flat pytree containers of operators (list / tuple / dict collapse to their leaf sequence + a treedef token)
+    def tree_leaves(self, interp, tree, is_leaf=None):
+        if isinstance(tree, B.PyList):
+            return B.PyList(None, seq=tree.as_seq()) if tree.seq is not None else B.PyList(list(tree.items))
+        if is_z3(tree) and tree.sort() == Op:
+            return B.PyList([tree])
+        raise Unsupported(f'tree.leaves of {tree!r} in the alg facet')
+
+    def tree_map(self, interp, f, tree, *rest, is_leaf=None):
+        if is_z3(tree) and tree.sort() == Op:
+            return interp.call(f, [tree] + list(rest), {})
+        if not isinstance(tree, B.PyList):
+            raise Unsupported(f'tree.map over {tree!r} in the alg facet')
+        seq = tree.as_seq()
+        others = []
+        for r in rest:
+            if not isinstance(r, B.PyList):
+                raise Unsupported('tree.map: extra tree is not a flat container')
+            rs = r.as_seq()
+            # jax requires the extra trees to have the first tree's structure (else ValueError / TypeError)
+            interp.run.oblige(f'{interp.cur_name()}/pre:tree.map-same-treedef',
+                              z_and(z_eq(rs.length, seq.length), z_eq(getattr(r, 'treedef', 0), getattr(tree, 'treedef', 0))),
+                              kind='pre', meta=self._meta(interp))
+            others.append(rs)
+        if seq.is_concrete_len():
+            out = [interp.call(f, [x] + [o.get(i) for o in others], {}) for i, x in enumerate(seq.py_items())]
+            res = B.PyList(out)
+        else:
+            res = B.PyList(None, seq=SSeq(seq.length, lambda k: interp.call(f, [seq.get(k)] + [o.get(k) for o in others], {}),
+                                          'list'))
+        res.treedef = getattr(tree, 'treedef', 0)
+        if res.seq is not None:
+            self.after_seq_map(interp, res.seq, seq)
+        return res
+
+    def tree_all(self, interp, tree):
+        if isinstance(tree, B.PyList):
+            return tree.as_seq().forall(lambda k, e: interp.truth_term(e))
+        raise Unsupported('tree.all')
+
+    @staticmethod
+    def _meta(interp):
+        S = getattr(interp.run, '_S', None)
+        if S is None:
+            return {}
+        m = {'inputs': dict(S.inputs), 'func': S.func_name, 'scenario': S.label}
+        if S.oracle:
+            m['oracle'] = S.oracle
+        return m
 
     # ---- structures are opaque terms with equality
     def struct_eq(self, interp, a, b):
@@ -164,12 +258,9 @@ class AlgTheory(Theory):
         raise Unsupported(f'attribute {name} of an operator of unknown class')
 
     def reduce_contract(self, interp, o):
-        """callee contract of X.reduce() (C01's own postcondition): same map, same structures, and the result is
-        `reduced` (C07 assumes operands of the scan are already reduced)"""
-        r = fresh_const('red', Op)
-        interp.run.assume(z3.And(denw(r) == denw(o), denc(r) == denc(o), ins(r) == ins(o), outs(r) == outs(o),
-                                 insize(r) == insize(o), outsize(r) == outsize(o)))
-        return r
+        """callee contract of X.reduce() for an operator of unknown class = C01's own postcondition (same map, same
+        structures), as a function so that repeated calls agree; its axioms are `reduce_axioms()`"""
+        return reduced(o)
 
     def op_isinstance(self, interp, v, c):
         if is_z3(v) and v.sort() == Op:
@@ -231,17 +322,27 @@ class AlgTheory(Theory):
     def filter_comprehension(self, interp, e, g, seq, fr, elt_fn, kind):
         import ast as _ast
         from pyvc.interp import Frame
-        if not (isinstance(e.elt, _ast.Name) and isinstance(g.target, _ast.Name) and e.elt.id == g.target.id):
-            return None
         run = interp.run
-        S = arr_of(run, seq)
-        n0 = to_z3(seq.length)
+        if not isinstance(g.target, _ast.Name):
+            return None
 
         def keep(x):
             f2 = Frame(fr.module, fr, fr.func, fr.defcls)
             f2.is_comp = True
             f2.vars[g.target.id] = x
             return z_and(*[interp.truth_term(interp.ev(c, f2)) for c in g.ifs])
+        if not (isinstance(e.elt, _ast.Name) and e.elt.id == g.target.id):
+            # the selected values are not the elements themselves: only the NUMBER of selected items is modelled
+            # (callers test emptiness): 0 <= n <= len, n > 0 iff some element satisfies the condition
+            n = fresh_int('nsel')
+            run.assume(z3.And(n >= 0, n <= to_z3(seq.length),
+                              (n > 0) == zbool(seq.exists(lambda k, x: keep(x)))))
+
+            def opaque(k):
+                raise Unsupported('element of a filtered comprehension whose items are not modelled')
+            return SSeq(n, opaque, kind)
+        S = arr_of(run, seq)
+        n0 = to_z3(seq.length)
         R = op_seq('filtered')
         n = to_z3(R.length)
         idx = z3.Function(fresh_name('fidx'), z3.IntSort(), z3.IntSort())
@@ -305,6 +406,27 @@ class AlgTheory(Theory):
                     z3.Implies(na == 1, lem_single(aa, 0)), z3.Implies(nb == 1, lem_single(ab, 0))):
             run.assume(lem)
 
+    def after_seq_map(self, interp, res: SSeq, src: SSeq):
+        run = interp.run
+        try:
+            probe = src.get(fresh_int('probe'))
+            if not (is_z3(probe) and probe.sort() == Op):
+                return
+            a, b = arr_of(run, res), arr_of(run, src)
+        except Exception:
+            return
+        n = to_z3(src.length)
+        run.assume(lem_den_cong(a, b, 0, n))
+        run.assume(lem_container_cong(Sw, a, b, n, Sc))
+        for kind in ('Row', 'Diag', 'Col'):
+            run.assume(lem_container_cong(BLKW[kind], a, b, n))
+            run.assume(lem_struct_cong(kind, a, b, n))
+        k = fresh_int('k')
+        # typing of the mapped chain follows from element-wise equal structures
+        run.assume(z3.Implies(z3.ForAll([k], z3.Implies(z3.And(k >= 0, k < n), z3.And(ins(a[k]) == ins(b[k]),
+                                                                                    outs(a[k]) == outs(b[k])))),
+                              z3.Implies(chain_ok(b, n), chain_ok(a, n))))
+
     def after_list_append(self, interp, lst, cur: SSeq, x):
         run = interp.run
         if not (is_z3(x) and x.sort() == Op):
@@ -316,3 +438,61 @@ class AlgTheory(Theory):
         for lem in (lem_split(ar, 0, n0, n0 + 1), lem_single(ar, n0), lem_cong(ar, 0, n0, a0, 0), lem_empty(ar, 0),
                     lem_empty(a0, 0)):
             run.assume(lem)
+
+
+# ------------------------------------------------------------------------------- denotation of a value
+def den_of(interp, v):
+    """(coef, word, in-structure, out-structure) of an operator value: an Op term, or an instance of one of the
+    container classes whose class invariant says what it denotes (proved where those classes' mv / structure
+    methods are verified: C02/C04/C05/C10)"""
+    run = interp.run
+    if is_z3(v) and v.sort() == Op:
+        return denc(v), denw(v), ins(v), outs(v)
+    if isinstance(v, Obj):
+        name = v.cls.name
+        if name == 'CompositionOperator':
+            seq = B.as_seq(interp, v.fields['operands'])
+            arr = arr_of(run, seq)
+            n = to_z3(seq.length)
+            return Wc(arr, 0, n), Ww(arr, 0, n), ins(arr[n - 1]), outs(arr[0])
+        if name == 'AdditionOperator':
+            seq = B.as_seq(interp, v.fields['operands'])
+            arr = arr_of(run, seq)
+            n = to_z3(seq.length)
+            return Sc(arr, n), Sw(arr, n), ins(arr[0]), outs(arr[0])
+        if name in ('BlockRowOperator', 'BlockDiagonalOperator', 'BlockColumnOperator'):
+            kind = {'BlockRowOperator': 'Row', 'BlockDiagonalOperator': 'Diag', 'BlockColumnOperator': 'Col'}[name]
+            seq = B.as_seq(interp, v.fields['blocks'])
+            arr = arr_of(run, seq)
+            n = to_z3(seq.length)
+            return z3.RealVal(1), BLKW[kind](arr, n), BLKS[kind + 'in'](arr, n), BLKS[kind + 'out'](arr, n)
+    raise Unsupported(f'denotation of {v!r}')
+
+
+def same_map(interp, a, b):
+    ca, wa, ia, oa = den_of(interp, a)
+    cb, wb, ib, ob = den_of(interp, b)
+    return z3.And(ca == cb, wa == wb), z3.And(ia == ib, oa == ob)
+
+
+# ------------------------------------------------------------------------------- block containers' structures
+def block_struct_axioms():
+    a = z3.Const('a!bs', OpArr)
+    n = z3.Int('n!bs')
+    return [z3.ForAll([a, n], BLKS['Rowout'](a, n) == outs(a[0]), patterns=[BLKS['Rowout'](a, n)]),
+            z3.ForAll([a, n], BLKS['Colin'](a, n) == ins(a[0]), patterns=[BLKS['Colin'](a, n)])]
+
+
+def block_structure_contracts():
+    """callee contracts of AbstractBlockOperator.in_structure / out_structure in the alg facet: the pytree of the
+    blocks' structures is the opaque token <Kind>in / <Kind>out of the block list (their honesty is C05/C10's)"""
+    def mk(io):
+        def contract(interp, fi, args, kwargs):
+            self_ = args[0]
+            kind = {'BlockRowOperator': 'Row', 'BlockDiagonalOperator': 'Diag', 'BlockColumnOperator': 'Col'}[self_.cls.name]
+            seq = B.as_seq(interp, self_.fields['blocks'])
+            arr = arr_of(interp.run, seq)
+            return BLKS[kind + io](arr, to_z3(seq.length))
+        return contract
+    return {'furax._base.blocks.AbstractBlockOperator.in_structure': mk('in'),
+            'furax._base.blocks.AbstractBlockOperator.out_structure': mk('out')}
